@@ -129,27 +129,37 @@ pub fn sass_string_ext(input: Span) -> PResult<SassString> {
 }
 
 fn unquoted_first_part(input: Span) -> PResult<String> {
-    let (input, first) = alt((
+    let (mut input, mut acc) = alt((
         map(str_plain_part, String::from),
         normalized_first_escaped_char,
         map(hash_no_interpolation, String::from),
     ))
     .parse(input)?;
-    fold_many0(
-        // Note: This could probably be a whole lot more efficient,
-        // but try to get stuff correct before caring too much about that.
-        alt((
+    // Note: This could probably be a whole lot more efficient,
+    // but try to get stuff correct before caring too much about that.
+    loop {
+        // Right after the `.` or `#` of a class or id selector, an escape
+        // is the first character of a name.
+        let escaped_char = if acc.ends_with(['.', '#']) {
+            normalized_first_escaped_char
+        } else {
+            normalized_escaped_char
+        };
+        let next = alt((
             map(str_plain_part, String::from),
-            normalized_escaped_char,
+            escaped_char,
             map(hash_no_interpolation, String::from),
-        )),
-        move || first.clone(),
-        |mut acc: String, item: String| {
-            acc.push_str(&item);
-            acc
-        },
-    )
-    .parse(input)
+        ))
+        .parse(input);
+        match next {
+            Ok((rest, item)) => {
+                acc.push_str(&item);
+                input = rest;
+            }
+            Err(nom::Err::Error(_)) => return Ok((input, acc)),
+            Err(err) => return Err(err),
+        }
+    }
 }
 fn unquoted_part(input: Span) -> PResult<String> {
     fold_many1(
